@@ -730,7 +730,7 @@ func lockHistory(e *lockEnv, rng *RNG, out *Out, h int) {
 			if x.IsNegative() {
 				x = sdkmath.ZeroInt()
 			}
-			if x.IsZero() && !rng.Chance(10) {
+			if !x.IsPositive() { // AddHold only ever sees valid sdk.Coins: positive, sorted, distinct denoms
 				continue
 			}
 			cs = append(cs, sdk.Coin{Denom: d, Amount: x})
